@@ -372,10 +372,12 @@ def low_rank_root(ctx):
       if c.op == 'cmp':
         o, a, b = c.args
         if a.op == 'sym' and a.args[-1] == 'compression_rank' and is_const(b, 0):
-          if o == '<':
+          if o in ('<', '<='):
             return neg
-          if o == '!=':
-            return True
+          if o in ('>=', '>'):
+            return not neg
+          if o in ('!=', '=='):
+            return o == '!='          # the rank is non-zero on this path (compression is on)
         if a.op == 'sym' and a.args[-1] == 'padding_start' and is_const(b, None):
           return pad if o == 'is not' else (not pad)
       if c.op == 'sym' and c.args[-1] == 'relative_matrix_epsilon':
